@@ -5,7 +5,7 @@
    reference after any template is a parse error; an escaped opening marker between plain
    texts is literal text.  The grammar itself is tied to the code by the exhaustive comparison of
    parse trees over {$ { } [ \ : a} (length <= 6 quick, <= 8 thorough) through the Token hook. *)
-From RV Require Import Model.Parser Model.Interp Proofs.ParserFacts Proofs.ParserShape.
+From RV Require Import Model.Parser Model.Interp Proofs.ParserFacts Proofs.ParserShape Proofs.ParserNested Proofs.ParserEscapes Proofs.ParserGen Proofs.ParserFull.
 
 (** A string containing no reference marker is not parsed and renders unchanged, as a literal. *)
 Theorem C06_marker_free_string_untouched :
@@ -60,6 +60,78 @@ Theorem C06_escaped_marker_is_literal :
     token_parse (p1 ++ bs ++ "${" ++ p2) = Parsed (TLit (p1 ++ "${" ++ p2)).
 Proof. exact escaped_marker_is_literal. Qed.
 Eval cbv in "ASSUMPTIONS-OF C06_escaped_marker_is_literal"%string. Print Assumptions C06_escaped_marker_is_literal.
+
+(** "... any nesting of references": [cat tops] spells a list of plain texts and reference TREES --
+    a reference holds plain texts and further references, to any depth within the documented limit
+    of 128, any number of pieces at every level, no two texts in a row ([wft], [noadj]) -- and the
+    parse of that string is exactly the list of trees. *)
+Theorem C06_reference_trees_parse_back :
+  forall d t tops rs,
+    d <= MAX_REF_NESTING -> noadj (t :: tops) -> Forall (wft (S d)) (t :: tops) -> In (TRef rs) (t :: tops) ->
+    token_parse (cat (t :: tops)) = Parsed (match tops with [] => t | _ => TComb (t :: tops) end).
+Proof. exact token_trees_parse_back. Qed.
+Eval cbv in "ASSUMPTIONS-OF C06_reference_trees_parse_back"%string. Print Assumptions C06_reference_trees_parse_back.
+
+(** non-vacuity: x${a:${b${c}}d}-${e} *)
+Example C06_nested_nonvacuous :
+  let inner := TRef [TLit "b"; TRef [TLit "c"]] in
+  let tops := [TLit "x"; TRef [TLit "a:"; inner; TLit "d"]; TLit "-"; TRef [TLit "e"]] in
+  cat tops = "x${a:${b${c}}d}-${e}"%string /\ noadj tops /\ Forall (wft 3) tops /\
+  token_parse "x${a:${b${c}}d}-${e}" = Parsed (TComb tops).
+Proof.
+  cbn zeta. split; [reflexivity|]. split; [apply noadjb_ok; reflexivity|]. split.
+  - repeat (first [ apply Forall_cons | apply Forall_nil ]); cbn [wft];
+      repeat (first [ split | apply noadjb_ok; reflexivity | discriminate | apply Forall_cons | apply Forall_nil | reflexivity ]).
+  - vm_compute. reflexivity.
+Qed.
+
+(** The grammar with its escapes.  Inside a reference, a run of plain texts, \${ (the text ${), \$[
+    ($[), \} (a closing brace), possibly ending in \\ (one backslash) is taken as ONE literal piece
+    holding the decoded text ([lit_ok]: whatever follows it inside the reference, the closing brace
+    or a nested reference); ... *)
+Theorem C06_escaped_run_inside_a_reference_is_one_piece :
+  forall a l, Forall ratom_ok (a :: l) -> rachain (a :: l) -> lit_ok (run_src (a :: l)) (run_val (a :: l)).
+Proof. exact escaped_run_is_one_piece. Qed.
+Eval cbv in "ASSUMPTIONS-OF C06_escaped_run_inside_a_reference_is_one_piece"%string. Print Assumptions C06_escaped_run_inside_a_reference_is_one_piece.
+
+(** ... reference trees over such pieces parse back, to any depth within the limit; ... *)
+Theorem C06_reference_trees_with_escapes_parse_back :
+  forall d b ts rest, d <= b -> ts <> [] -> galt ts -> Forall (gwf d) ts ->
+    reference (S b) ("${" ++ gcat ts ++ "}" ++ rest)%string = POk rest (TRef (map gtok ts)).
+Proof. exact general_reference_parses_back. Qed.
+Eval cbv in "ASSUMPTIONS-OF C06_reference_trees_with_escapes_parse_back"%string. Print Assumptions C06_reference_trees_with_escapes_parse_back.
+
+(** ... and a whole string -- plain texts, \${, \$[, \\ before a reference, and such reference trees, in
+    any number and order ([fchain]: no two plain texts in a row, \\ only before a reference) -- parses
+    to the decoded pieces, adjacent texts joined by the parser's own coalescing.  An escaped marker
+    never opens a reference: the only references of the result are the trees. *)
+Theorem C06_strings_with_escapes_parse :
+  forall d u us,
+    d <= MAX_REF_NESTING -> Forall (funit_ok d) (u :: us) -> fchain (u :: us) ->
+    has_marker (srcs (map fpair (u :: us))) = true ->
+    token_parse (srcs (map fpair (u :: us))) =
+      Parsed (match coalesce (ftok u, map ftok us) with [t] => t | ts => TComb ts end).
+Proof. exact strings_with_escapes_parse. Qed.
+Eval cbv in "ASSUMPTIONS-OF C06_strings_with_escapes_parse"%string. Print Assumptions C06_strings_with_escapes_parse.
+
+(** non-vacuity:  a\${b${x\}y\\}\\${z}  *)
+Example C06_escapes_nonvacuous :
+  let run := [RPlain "x" ""; RClose; RPlain "y" ""; RBs] in
+  let us := [FPlain "a" ""; FOpen; FPlain "b" ""; FRef [GLit (run_src run) (run_val run)]; FBs; FRef [GLit "z" "z"]] in
+  srcs (map fpair us) = ("a" ++ bs ++ "${b${x" ++ bs ++ "}y" ++ bs ++ bs ++ "}" ++ bs ++ bs ++ "${z}")%string /\
+  Forall (funit_ok 0) us /\ fchain us /\
+  token_parse (srcs (map fpair us)) =
+    Parsed (TComb [TLit "a${b"; TRef [TLit ("x}y" ++ bs)]; TLit bs; TRef [TLit "z"]]).
+Proof.
+  cbn zeta. split; [reflexivity|]. split.
+  - repeat (first [apply Forall_cons | apply Forall_nil]); cbn [funit_ok gwf]; try exact I; try (cbn; tauto).
+    + split; [discriminate|]. split; [exact I|]. constructor; [|constructor].
+      apply (escaped_run_is_one_piece (RPlain "x" "") [RClose; RPlain "y" ""; RBs]); [|exact I].
+      repeat (first [apply Forall_cons | apply Forall_nil]); cbn [ratom_ok]; try exact I; cbn; tauto.
+    + split; [discriminate|]. split; [exact I|]. constructor; [|constructor].
+      apply (plain_text_is_one_piece "z" ""). cbn. tauto.
+  - split; [exact I|]. vm_compute. reflexivity.
+Qed.
 
 Example C06_template_nonvacuous :
   token_parse "pre-${a:b}-mid-${c}" =
